@@ -816,9 +816,20 @@ def _k_eq(family, case, disc):
 
     if _all_fails(case, disc, "draw-rejected:DATAFRAME_CHECK:", fn):
         return True
-    # the dataframe-level chain itself: failures are reported on the DataFrameSchema
+    # a dataframe-level eq is chained after every column's own chain and replaces it as well: the column emits the
+    # frame-level value whatever its own checks say
     fails = _fails(disc)
     fc = case.get("checks") or []
+    if case.get("kind") == "dataframe" and disc.kind.startswith("draw-rejected:DATAFRAME_CHECK:") and fails:
+        cols = {f["name"]: f for f in case.get("columns", [])}
+        for c in fc:
+            if c["c"] != "eq":
+                continue
+            if all(fl.get("schema") == "Column" and fl.get("field") in cols and cols[fl["field"]].get("checks")
+                   and all(_same(v, sp.conc(cols[fl["field"]]["dtype"], c["v"])) for v in fl.get("cases", []))
+                   for fl in fails):
+                return True
+    # the dataframe-level chain itself: failures are reported on the DataFrameSchema
     names = [PA_NAME[c["c"]] for c in fc]
     return bool(disc.kind.startswith("draw-rejected:DATAFRAME_CHECK:") and fails and all(
         fl.get("schema") == "DataFrameSchema" and any(
